@@ -843,7 +843,7 @@ fn capture_once(
     far: Instant,
 ) -> Result<Run, String> {
     let full = or == (0..a.len()) && nr == (0..b.len());
-    let entry = if full { entry } else { 0 };
+    let entry = if full || entry >= 5 { entry } else { 0 };
     let swaps0 = vh::swaps();
     if let Some(c) = clock {
         vh::set_clock(c);
@@ -865,6 +865,18 @@ fn capture_once(
             } else {
                 capture_diff_slices(alg, a, b)
             }
+        }
+        5 => {
+            // the capture hook alone: the algorithm's raw calls recorded as ops
+            let mut d = similar::algorithms::Capture::new();
+            similar::algorithms::diff_deadline(alg, &mut d, a, or.clone(), b, nr.clone(), deadline).unwrap();
+            d.into_ops()
+        }
+        6 => {
+            // Replace<Capture> without the compaction stage
+            let mut d = similar::algorithms::Replace::new(similar::algorithms::Capture::new());
+            similar::algorithms::diff_deadline(alg, &mut d, a, or.clone(), b, nr.clone(), deadline).unwrap();
+            d.into_inner().into_ops()
         }
         3 => Vec::new(), // run below
         4 => {
@@ -1016,11 +1028,28 @@ fn captured_case(
         ks.retain(|k| *k <= p);
         ks
     };
-    for k in ks {
+    for k in &ks {
         out.eval();
         out.count("expiry_points_run");
-        let r = capture_once(alg, a, or.clone(), b, nr.clone(), entry, Some(vh::Clock::Fuel(k)), far);
-        judge(focus, cfg, alg, a, &or, b, &nr, entry, Some(k), &r, out);
+        let r = capture_once(alg, a, or.clone(), b, nr.clone(), entry, Some(vh::Clock::Fuel(*k)), far);
+        judge(focus, cfg, alg, a, &or, b, &nr, entry, Some(*k), &r, out);
+    }
+    // the capture hook WITHOUT the compaction stage (bare, or behind Replace only) is a captured op
+    // list too: valid script (C02), exact positions behind Replace (C11); not in normal form, so not for C09
+    if focus == Focus::C02 || focus == Focus::C11 {
+        // (a bare Capture records the raw calls, whose carried positions may legitimately sit anywhere
+        // inside their run of changes - C01 - so exact positions are only demanded behind Replace)
+        let stack = if focus == Focus::C11 { 6 } else { 5 + ((n + m + or.start) % 2) as u8 };
+        out.eval();
+        let r = capture_once(alg, a, or.clone(), b, nr.clone(), stack, None, far);
+        judge(focus, cfg, alg, a, &or, b, &nr, stack, None, &r, out);
+        let some: Vec<u64> = if all_expiry_points && p <= 64 { ks.clone() } else { ks.iter().copied().step_by(3).collect() };
+        for k in some {
+            out.eval();
+            out.count("expiry_points_run_without_compaction");
+            let r = capture_once(alg, a, or.clone(), b, nr.clone(), stack, Some(vh::Clock::Fuel(k)), far);
+            judge(focus, cfg, alg, a, &or, b, &nr, stack, Some(k), &r, out);
+        }
     }
 }
 
@@ -1029,7 +1058,7 @@ fn ctx(alg: Algorithm, a: &[u32], or: &Range<usize>, b: &[u32], nr: &Range<usize
     format!(
         "alg={} entry={} old={} range {:?} new={} range {:?} deadline={}",
         alg_name(alg),
-        match if full || entry >= 10 { entry } else { 0 } {
+        match if full || entry >= 5 { entry } else { 0 } {
             0 => "capture_diff(_deadline)",
             1 => "capture_diff_slices(_deadline)",
             10 => "Compact<Replace<&mut Capture>> (borrowed hook)",
@@ -1038,6 +1067,8 @@ fn ctx(alg: Algorithm, a: &[u32], or: &Range<usize>, b: &[u32], nr: &Range<usize
             13 => "captured ops replayed via apply_to_hook into Replace<Capture>",
             14 => "Compact<&mut Replace<Capture>> (buffering adapter by reference)",
             4 => "algorithms::diff_slices(_deadline) into Compact<Replace<Capture>>",
+            5 => "algorithms::diff_deadline into a bare Capture hook",
+            6 => "algorithms::diff_deadline into Replace<Capture>",
             3 => "TextDiff::configure().diff_lines over a user-defined DiffableStr (OddStr: case-insensitive Eq, U+2028 line ends, char-indexed)",
             _ => "TextDiff::configure().diff_slices",
         },
